@@ -378,7 +378,9 @@ func (f *Frame) applyContract(spec *UnitSpec, name string, c *ssa.CallCommon, si
 			lab = fmt.Sprintf("%d", i+1)
 		}
 		o := u.addObl(st, "pre@"+anchor, lab, t, r)
-		if len(u.spec.Props) > 0 {
+		// a precondition labelled with properties ([C04,C05:label]) belongs to those properties; an unlabelled one to every
+		// property the calling unit serves
+		if len(r.Props) == 0 && len(u.spec.Props) > 0 {
 			o.Props = u.spec.Props
 		}
 		u.assume(st, t)
